@@ -631,3 +631,9 @@ def write_evidence(prop, tier, seed, merged, wall, n_viol, n_known, reported, ha
     with open(tmp, "w") as f:
         json.dump(ev, f, indent=1, sort_keys=True, default=str)
     os.replace(tmp, os.path.join(d, f"{prop.id}.json"))
+    if tier == "thorough" and not os.environ.get("VERIF_EVIDENCE_DIR"):
+        # keep the last thorough result next to the (quick) file the harness rewrites
+        td = os.path.join(d, "thorough")
+        os.makedirs(td, exist_ok=True)
+        with open(os.path.join(td, f"{prop.id}.json"), "w") as f:
+            json.dump(ev, f, indent=1, sort_keys=True, default=str)
